@@ -123,8 +123,10 @@ CLAIMED["C10"] = dict(engine="yast",
     technique="AST who-must-wrap rule, CFG control-dependence whitelists, loop-nest rule, typestate rule on deferred-id flags",
     text="Decides the places where an RTTI flavour could lose an id: class_map is always keyed through Policy::type_index; every new id of a class is "
          "appended to its id list; the three publishers and the hash search iterate every id of every class; the hash treats every value except "
-         "invalid_type as a legal id; deferred ids are resolved once per list, the flag being set after all cells and read only for non-empty lists. "
-         "Equality of dispatch results across flavours is not decided.",
+         "invalid_type as a legal id; deferred ids are resolved once per list, the flag being set after all cells and read only for non-empty lists; "
+         "for every virtual parameter kind the class whose id is registered is the cv-unqualified pointee class (type-checker table); every registration "
+         "record of a class gets the class's v-table pointer installed; virtual_ptr's dynamic route reads the table at the dynamic id under every flavour. "
+         "Two defects found and repaired (F19, F20). Equality of dispatch results across flavours is not decided.",
     design_ref="DESIGN.md section 4, C10")
 CLAIMED["C04"] = dict(engine="yast",
     technique="AST affine rules on index / pointer / size expressions; CFG control-dependence whitelist on the slot-reservation steps",
@@ -141,7 +143,8 @@ CLAIMED["C04"] = dict(engine="yast",
 CLAIMED["C07"] = dict(engine="yast",
     technique="AST who-may-read rule over statics on the update path; CFG control-dependence whitelists of installing stores; typestate rule; catalog case tables",
     text="Decides the structural reasons the property can hold: update-path functions read only policy-keyed registration/output state (frozen list, "
-         "no function-local static, cache or 'compiled' flag); next pointers, the hash search, v-table pointer publication, static v-table pointers "
+         "no function-local static, cache or 'compiled' flag - over the whole library the only function-local static with a dynamic initialiser is "
+         "add_function's registration record); next pointers, the hash search, v-table pointer publication, static v-table pointers "
          "and slots/strides are reinstalled unconditionally by every update; deferred ids are resolved exactly once; registration objects add and "
          "remove themselves from the right catalog and the list operations are right in every list-shape case. Equivalence with a fresh process for "
          "all histories (an induction over histories) is not mechanised.",
@@ -166,7 +169,9 @@ CLAIMED["C18"] = dict(engine="yast",
     technique="AST decision tables per list-shape case (canonicalised link assignments); constructor/destructor pairing; CFG control dependence; idempotence table",
     text="Decides the induction step, not the induction: in each list-shape case (empty / only / first / last / interior element) push_back and remove "
          "perform exactly the link updates the documented invariant needs and reset the removed node's links; every catalog registration made in a "
-         "constructor has an unconditional removal from the same catalog in the destructor; add_function registers a definition once. Correctness for "
+         "constructor has an unconditional removal from the same catalog in the destructor; add_function registers a definition once; the cases include a "
+         "node that is not in the list (its catalog was cleared): nothing changes and nothing null is dereferenced (defect F21 found and repaired); iterators, "
+         "postfix increment included, enumerate from first along next. Correctness for "
          "all histories follows by induction over operations, which is not mechanised here.",
     design_ref="DESIGN.md section 4, C18")
 CLAIMED["C19"] = dict(engine="yast",
